@@ -25,7 +25,7 @@ def validate(ck, trace, what):
     rv = vlib.tlc("FaceLifeTrace.tla", "FaceLifeTrace.cfg", workers=1, env={"TRACE": trace}, timeout=3000, coverage=False, heap="16g")
     if rv.violation:
         lines = open(trace).read().splitlines()
-        k = rv.states
+        k = rv.states - 1
         # find the history this event belongs to
         start = k - 1
         while start > 0 and '"Reset"' not in lines[start]:
